@@ -403,19 +403,29 @@ func genDryWiring() {
 	}
 	l.pairList("guards", guards)
 
-	// the two conditions of RunTask the model quotes
+	// the two conditions of RunTask the model quotes (operands of && / || sorted; the local
+	// that holds the result of areTaskPreconditionsMet printed as <preconditions>)
 	skip, upToDate := "", ""
+	precondVar := map[string]string{}
+	if fd := root.funcDecl("Executor.RunTask"); fd != nil {
+		ast.Inspect(fd, func(n ast.Node) bool {
+			if as, ok := n.(*ast.AssignStmt); ok && len(as.Rhs) == 1 && len(as.Lhs) >= 1 && contains(src(as.Rhs[0]), "areTaskPreconditionsMet(") {
+				precondVar[src(as.Lhs[0])] = "<preconditions>"
+			}
+			return true
+		})
+	}
 	if fd := root.funcDecl("Executor.RunTask"); fd != nil {
 		ast.Inspect(fd, func(n ast.Node) bool {
 			switch x := n.(type) {
 			case *ast.AssignStmt:
 				if x.Tok == token.DEFINE && len(x.Lhs) == 1 && len(x.Rhs) == 1 && src(x.Lhs[0]) == "skipFingerprinting" {
-					skip = src(x.Rhs[0])
+					skip = canonBool(x.Rhs[0], nil)
 				}
 			case *ast.IfStmt:
 				if n := len(x.Body.List); n > 0 && upToDate == "" {
 					if rs, ok := x.Body.List[n-1].(*ast.ReturnStmt); ok && srcList(rs.Results) == "nil" && mentionsLiteral(x.Body, "is up to date") {
-						upToDate = src(x.Cond)
+						upToDate = canonBool(x.Cond, precondVar)
 					}
 				}
 			}
@@ -621,6 +631,36 @@ func unquoteLit(e ast.Expr) string {
 	if bl, ok := e.(*ast.BasicLit); ok && bl.Kind == token.STRING {
 		if s, err := strconv.Unquote(bl.Value); err == nil {
 			return s
+		}
+	}
+	return src(e)
+}
+
+// canonBool prints a boolean expression with the operands of every && / || chain sorted and
+// the given identifiers renamed, so that reordering operands or renaming a local changes nothing.
+func canonBool(e ast.Expr, rename map[string]string) string {
+	switch x := e.(type) {
+	case *ast.ParenExpr:
+		return "(" + canonBool(x.X, rename) + ")"
+	case *ast.BinaryExpr:
+		if x.Op == token.LAND || x.Op == token.LOR {
+			var ops []string
+			var collect func(e ast.Expr)
+			collect = func(e ast.Expr) {
+				if b, ok := e.(*ast.BinaryExpr); ok && b.Op == x.Op {
+					collect(b.X)
+					collect(b.Y)
+					return
+				}
+				ops = append(ops, canonBool(e, rename))
+			}
+			collect(x)
+			sort.Strings(ops)
+			return strings.Join(ops, " "+x.Op.String()+" ")
+		}
+	case *ast.Ident:
+		if r, ok := rename[x.Name]; ok {
+			return r
 		}
 	}
 	return src(e)
